@@ -448,6 +448,14 @@ def main_wrapper(fn, prop, tier, seed):
     except ToolError as e:
         log(f"TOOL-ERROR property={prop}: {e}")
         rc = 2
+        # disagreements found before the pipeline broke are reported all the same: a change that breaks the property often
+        # breaks a later step's preconditions too (nothing left for a negative control to corrupt), and that must not hide it
+        if run.mismatches:
+            try:
+                if run.finish() == 1:
+                    rc = 1
+            except Exception:
+                pass
     except subprocess.TimeoutExpired as e:
         log(f"TOOL-ERROR property={prop}: timeout {e}")
         rc = 2
